@@ -1,5 +1,6 @@
 import ExoVerif.Driver.Common
 import ExoVerif.Model.Oracle
+import ExoVerif.Model.OracleNil
 import ExoVerif.Model.OracleParams
 import ExoVerif.Model.OracleParamsUpdate
 /- driver for the C12/C13/C14 correspondence (ops `orc.*`, see harness/dom_oracle.go) -/
@@ -227,6 +228,16 @@ def emptyState : State :=
   { store := { prices := [], nonces := [], recentMsgs := [], msgIndex := [], recentParams := [], paramsIndex := [], vuBlock := none, params := emptyParams },
     agc := none, cache := none, dogfood := [], height := 0, blockTime := 0 }
 
+def detCount (p : Params) : Nat := (p.sources.filter (·.det)).length
+
+/-- at most one deterministic source in the stored parameters, in the parameters the aggregator context works
+with and in a pending cached update -/
+def atMostOneDet (s : State) : Bool :=
+  detCount s.store.params ≤ 1 &&
+  (match s.agc with | some g => (match g.params with | some p => detCount p ≤ 1 | none => true) | none => true) &&
+  (match s.cache with | some c => (match c.params with | some p => detCount p ≤ 1 | none => true) | none => true) &&
+  s.store.recentParams.all (fun kv => detCount kv.2 ≤ 1)
+
 def updParams (s : State) (f : Params → Params) : State := { s with store := { s.store with params := f s.store.params } }
 
 def step (s : State) (w : List String) : State × String :=
@@ -266,8 +277,12 @@ def step (s : State) (w : List String) : State × String :=
       match pMany pMsg (parseNat! nm) rest with
       | some (msgs, _) =>
         let tx : Tx := { size := parseNat! sz, infos := infos, msgs := msgs }
-        let (s', out) := deliverTx s tx
-        (s', showOut out ++ "|" ++ fullObs s')
+        -- the nil-aware DeliverTx (Model/OracleNil.lean); equal to `deliverTx` wherever no aggregation meets a nil slot
+        let (s', out) := deliverTxN s tx
+        -- run-time check of that equality on the input space of the C12–C14 theorems: while at most one
+        -- deterministic source is configured (stored and in-memory parameters) the layer must BE `deliverTx`
+        if atMostOneDet s && decide ((s', out) ≠ deliverTx s tx) then (s', "layer-mismatch|" ++ showOut out ++ "|" ++ fullObs s')
+        else (s', showOut out ++ "|" ++ fullObs s')
       | none => (s, "bad-op")
     | _ => (s, "bad-op")
   | ["orc.updparams.rej", _why] =>
